@@ -280,51 +280,7 @@ def r5(ctx):
 
 
 def r6(ctx):
-    R = 'R09.6'
-    ctx.rule(R, 'merge_owned: the fetched source is returned or re-added on every normal path (P7 linear)')
-    b = ctx.anchor(R, S.STORE + '::merge_owned')
-    if b is None:
-        return
-    dd = destroyed(b, r'^(std::option::Option<)?track::Track<')
-    ctx.check(not dd, R, b, 'source-never-destroyed', 'no normal-path drop of the fetched source track',
-              'the fetched source track can be destroyed on a normal path (%s): it is neither returned nor put back '
-              'into the store' % ['bb%d %s at %s' % (x[0], x[3], x[4]) for x in dd],
-              dd[0][4] if dd else '')
-    # failure path re-adds: on the path where merge_external fails, add_track is called before the error exit
-    eb = ExprBuilder(b)
-    adds = b.find_calls(S.STORE + '::add_track')
-    errs = [d for d in b.defs().get(0, []) if d[0] == 'call' and d[2].is_('std::ops::FromResidual::from_residual')]
-    n = 0
-    for d in errs:
-        c = d[2]
-        # skip the `?` on the not-found early return (an Err aggregate)
-        from lib import every_path_passes
-        src = eb.operand(c.args[0])
-        if not any(y.kind == 'call' and y.name.endswith('merge_external') for y in src.walk()):
-            continue
-        n += 1
-        me = [y for y in b.find_calls(S.STORE + '::merge_external')]
-        ok = bool(me) and every_path_passes(b, me[0].bb, c.bb, [a.bb for a in adds])
-        ctx.check(ok, R, b, 'failed-merge-readds-source', 'add_track on every path from merge_external to the error exit',
-                  'after a failed merge the source track is not re-added on every path to the error exit', c.ln)
-    ctx.floor(R, n, 1)
-    # not-found: error TrackNotFound
-    e = eb.place(0, ())
-    ctx.check(any(y.kind == 'agg' and y.name == 'Errors::TrackNotFound' for y in e.walk()), R, b,
-              'missing-source-reported', '', 'merge_owned does not report a missing source as TrackNotFound')
-    # remove_src_if_ok semantics: Ok(Some(src)) only when remove_src_if_ok
-    for i in sorted(b.live_blocks()):
-        for s in b.blocks[i]['st']:
-            rv = s.get('rv')
-            if s['k'] == 'assign' and rv['k'] == 'agg' and rv['ak'] == 'adt' and rv['v'] == 'Some' and \
-                    'Track<' in b.locals[s['lhs']['l']]:
-                conds = path_conditions(b, i)
-                flag = [k for k in conds if k.kind == 'bool' and k.expr.strip().kind == 'place' and
-                        k.expr.strip().root == ('param', 5)]
-                ok = bool(flag) and all(k.truth is True for k in flag)
-                ctx.check(ok, R, b, 'source-removed-only-when-asked', 'Ok(Some(src)) only under remove_src_if_ok',
-                          'the source is handed out (removed from the store) although remove_src_if_ok is not '
-                          'required on that path', s['ln'])
+    S.rule_merge_owned(ctx, 'R09.6')
 
 
 def r8(ctx):
